@@ -103,3 +103,52 @@ func (e *ErrInfo) UnmarshalJSON(b []byte) error {
 	*e = ErrInfo(a)
 	return nil
 }
+
+func (e FSEntry) MarshalJSON() ([]byte, error) {
+	type alias FSEntry
+	a := alias(e)
+	a.Path = model.EncStr(a.Path)
+	return json.Marshal(a)
+}
+
+func (e *FSEntry) UnmarshalJSON(b []byte) error {
+	type alias FSEntry
+	var a alias
+	if err := json.Unmarshal(b, &a); err != nil {
+		return err
+	}
+	a.Path = model.DecStr(a.Path)
+	*e = FSEntry(a)
+	return nil
+}
+
+// SnapMap is a filesystem snapshot (see Snap); names on disk are arbitrary bytes, so keys and values travel losslessly.
+type SnapMap map[string]string
+
+func (m SnapMap) MarshalJSON() ([]byte, error) {
+	if m == nil {
+		return []byte("null"), nil
+	}
+	out := make(map[string]string, len(m))
+	for k, v := range m {
+		out[model.EncStr(k)] = model.EncStr(v)
+	}
+	return json.Marshal(out)
+}
+
+func (m *SnapMap) UnmarshalJSON(b []byte) error {
+	var in map[string]string
+	if err := json.Unmarshal(b, &in); err != nil {
+		return err
+	}
+	if in == nil {
+		*m = nil
+		return nil
+	}
+	out := make(SnapMap, len(in))
+	for k, v := range in {
+		out[model.DecStr(k)] = model.DecStr(v)
+	}
+	*m = out
+	return nil
+}
